@@ -25,7 +25,23 @@ struct Barrier {
 
 static std::string doc_op(Document& d, int op) {
   switch (op) {
-    case 0: d.Parse("{\"a\":[1,2,{\"b\":\"s\"}],\"c\":1.5}"); return d.HasParseError() ? "E" : "P";
+    case 0: {
+      // a text that reaches the slow paths too: exact-tie and subnormal numbers (big-decimal fallback), more
+      // than 19 digits, escapes incl. surrogate pairs, long strings, deep nesting, long whitespace
+      static const char kText[] =
+          "{\"a\":[1,2,{\"b\":\"s\"}],\"c\":1.5,\"n\":[1.00000000000000011102230246251565404236316680908203125,2.2250738585072011e-308,"
+          "4.9406564584124654e-324,123456789012345678901234567890,1e23,-0.0,18446744073709551615,9007199254740993.5e-3],"
+          "\"s\":\"\\u00e9\\ud83d\\ude00\\n\\\"xxxxxxxxxxxxxxxxxxxxxxxxxxxxxxxxxxxxxxxxxxxxxxxxxxxxxxxxxxxxxxxxxxxxxxxxxx\","
+          "\"d\":[[[[[[[[[[[[[[[[[[[[1]]]]]]]]]]]]]]]]]]]],                                                                          \"z\":null}";
+      d.Parse(kText, sizeof(kText) - 1);
+      std::string r = d.HasParseError() ? "E" : "P";
+      if (!d.HasParseError()) {
+        char b[64];
+        snprintf(b, sizeof b, "%.17g", d["n"][(size_t)0].GetDouble());
+        r += b;
+      }
+      return r;
+    }
     case 1: {
       if (!d.IsObject()) d.SetObject();
       d.AddMember("k", Node(7), d.GetAllocator());
